@@ -21,7 +21,6 @@ from tqdm.auto import tqdm
 
 from pyxel.calibration import Algorithm, IslandProtocol
 from pyxel.calibration.fitting_datatree import ModelFittingDataTree
-from pyxel.calibration.util import slice_to_range
 
 if TYPE_CHECKING:
     import pygmo as pg
@@ -343,9 +342,9 @@ class ArchipelagoDataTree:
                     dims=["processor", "readout_time", "y", "x"],
                     coords={
                         "processor": range(len(self.problem.all_target_data)),
-                        "readout_time": slice_to_range(slice_times),
-                        "y": slice_to_range(slice_rows),
-                        "x": slice_to_range(slice_cols),
+                        "readout_time": range(*slice_times.indices(no_times)),
+                        "y": range(*slice_rows.indices(num_rows)),
+                        "x": range(*slice_cols.indices(num_cols)),
                     },
                 )
             else:
